@@ -5,6 +5,12 @@ import NbioVerif.Lemmas.HttpTables
 #print axioms Http.wf
 #print axioms Scan.c06_segmentation_independent
 #print axioms Http.c06_http
+#print axioms Scan.implParseC_eq
+#print axioms Http.c06_driver_bridge
+#print axioms Http.c06_http_driver
+#print axioms Http.c06_http_driver_limit
+#print axioms Http.c06_messages
+#print axioms Http.procCalls_flatten
 #print axioms Http.isToken_table
 #print axioms Http.isHex_table
 #print axioms Http.isNum_table
